@@ -102,8 +102,16 @@ func WithScriptedServer(greeting string, script Script, lmtp bool, f func(cs *CS
 				}
 				// "\x00CUT\x00": the answer reaches the client in separate pieces (one Read each), without any delay
 				for _, piece := range bytes.Split(part, []byte("\x00CUT\x00")) {
+					// "\x00EOF\x00" at the end of a piece: the server hangs up behind it
+					hangup := bytes.HasSuffix(piece, []byte("\x00EOF\x00"))
+					piece = bytes.TrimSuffix(piece, []byte("\x00EOF\x00"))
 					if len(piece) > 0 {
 						cs.SEnd.Write(piece)
+					}
+					if hangup {
+						cs.SEnd.Close()
+						cs.Done = true
+						return
 					}
 				}
 			}
